@@ -23,6 +23,7 @@ RULE = (
     "convolve_with}; leaves: integer lattice images (k<=3, both parities) and 3^d filters; all g in B_2, 12 (quick) / 48 "
     "(thorough) g in B_3. Non-trivial: >=2 operator nodes, root not identically zero, g != e; distinct by canonical tree string."
 )
+RULE += " Also: non-square images with per-axis flags, filter leaves with unequal sides from {1,3,5} (1 case in 3), object-level variant with the library's own action, strided root convolution in the equivariant regime."
 ASSUMPTIONS = ["reference action", "comparison relative 1e-4 of the node's magnitude (exact for integer nodes; float below a norm node)"]
 ANCHORS = [
     "ginjax.geometric.geometric_image:GeometricImage.__init__", "ginjax.geometric.geometric_image:GeometricImage.__add__", "ginjax.geometric.geometric_image:GeometricImage.__sub__",
